@@ -889,7 +889,9 @@ func (p *queryPlan) projectAndGroupBy() error {
 		// Update sorting configuration.
 		found := false
 		for _, g := range p.stm.GroupByBindings() {
-			if prj.Binding == g {
+			// GROUP BY refers to the output name of the projection, which
+			// is its alias if it has one.
+			if (prj.Alias == "" && prj.Binding == g) || (prj.Alias != "" && prj.Alias == g) {
 				found = true
 			}
 		}
